@@ -389,6 +389,9 @@ static void init_s3() {
       d.files = {{"/v/k1.dtd", "<!ENTITY % xp1 \"<!--c-->\">%xp1;"}}; CAT.push_back(d); }
     { DocCase d; d.doc = "<!DOCTYPE r SYSTEM 'k2.dtd'><r>&g;</r>"; d.label = "ext-subset-ending-in-internal-pe-ref-decl"; d.expect = 1; d.doctype = true; d.ref_usable = true;
       d.files = {{"/v/k2.dtd", "<!ENTITY % xp2 \"<!ENTITY g 'gv'>\">%xp2;"}}; CAT.push_back(d); }
+    good("brackets-empty-entity-gt", "<!DOCTYPE a [<!ENTITY z ''>]><a>]]&z;>]&z;]></a>", true);
+    { DocCase d; d.doc = "<!DOCTYPE r SYSTEM 'k3.dtd'><r>]]&undeclared;></r>"; d.label = "brackets-skipped-entity-gt"; d.expect = 1; d.doctype = true; d.ref_usable = true;
+      d.files = {{"/v/k3.dtd", "<!ENTITY e 'v'>"}}; CAT.push_back(d); }
     bad("cond-section-internal", "<!DOCTYPE a [<![INCLUDE[<!ENTITY e 'v'>]]>]><a/>", true);
 }
 static int g_s3_wrap = 3;
